@@ -308,6 +308,8 @@ theorem expandCore_mono (look : Bytes → Lookup) (rec1 rec2 : Bytes → Res) (h
         | ok p => rw [h1] at hr; rw [h _ p h1]; exact hr
       · cases v with
         | empty => simpa [expandCore, hl, hn] using hr
+        | bool x => simpa [expandCore, hl, hn] using hr
+        | num k => simpa [expandCore, hl, hn] using hr
         | str b =>
           simp only [expandCore, hl, hn, if_false, if_true, bind, Except.bind] at hr ⊢
           cases h1 : rec1 b with
